@@ -37,7 +37,7 @@ def inventory(tier):
     res = dict(name='c17_globals_inventory', verdict='error', wall=0, rss_kb=0, n_props=0, failed=[], cover_total=0, cover_sat=0, detail='',
                bounds='exhaustive over the global definitions of all library units (LLVM IR of the current tree at -O1, where globalopt has marked never-written internal objects constant; -DDISABLE_OBJECT_POOL)',
                desc='every object with static storage duration is constant, except the rng.c generator state')
-    work = os.path.join(HERE, '.work', 'C17_%s' % tier, 'inventory'); os.makedirs(work, exist_ok=True)
+    work = os.path.join(os.environ.get('VERIF_WORK_DIR', os.path.join(HERE, '.work')), 'C17_%s' % tier, 'inventory'); os.makedirs(work, exist_ok=True)
     inc = vrun.prepare_inc(work)
     bad = []; n_units = 0; n_glob = 0
     for f in sorted(os.listdir(vrun.SRC)):
